@@ -39,6 +39,10 @@ class Finding:
 class Ctx:
     """Accumulates what one check run analysed and found."""
 
+    def new_findings(self):
+        """findings that are not listed as known"""
+        return split_known(self)[1]
+
     def __init__(self, prop, program, tier="quick", seed=0):
         self.prop = prop
         self.p = program
